@@ -40,8 +40,8 @@ MIN_NONTRIVIAL = {"quick": 1500, "thorough": 3000}
 DOC_DEFAULT = [-1, 0, 1, 2, 3, 4, 5, 10, 100, 1000]
 
 # (spelling text, numeric value) per language group
-PY_LITS = [("7", 7), ("42", 42), ("3600", 3600), ("3.14", 3.14), ("2.5e-3", 2.5e-3), ("1e6", 1e6), ("0x1F", 31), ("0o17", 15), ("0b1011", 11), ("10_000", 10000), ("5", 5), ("100", 100), ("443", 443), ("5000", 5000)]
-TS_LITS = [("7", 7), ("42", 42), ("3600", 3600), ("3.14", 3.14), ("2.5e-3", 2.5e-3), ("1e6", 1e6), ("0x1F", 31), ("0o17", 15), ("0b1011", 11), ("10_000", 10000), ("5", 5), ("100", 100), ("443", 443), ("5000", 5000), (".75", 0.75), ("0xBEEF", 48879), ("7E-2", 0.07), ("6E3", 6000)]
+PY_LITS = [("7", 7), ("42", 42), ("3600", 3600), ("3.14", 3.14), ("2.5e-3", 2.5e-3), ("1e6", 1e6), ("0x1F", 31), ("0o17", 15), ("0b1011", 11), ("10_000", 10000), ("5", 5), ("100", 100), ("443", 443), ("5000", 5000), ("0XBEEF", 48879), ("0B101", 5)]
+TS_LITS = [("7", 7), ("42", 42), ("3600", 3600), ("3.14", 3.14), ("2.5e-3", 2.5e-3), ("1e6", 1e6), ("0x1F", 31), ("0o17", 15), ("0b1011", 11), ("10_000", 10000), ("5", 5), ("100", 100), ("443", 443), ("5000", 5000), (".75", 0.75), ("0xBEEF", 48879), ("7E-2", 0.07), ("6E3", 6000), ("0XE5", 229), ("0O17", 15), ("0B110", 6)]
 RS_LITS = [("7", 7), ("42", 42), ("3600", 3600), ("3.14", 3.14), ("1e6", 1e6), ("0x1F", 31), ("0o17", 15), ("0b1011", 11), ("10_000", 10000), ("5", 5), ("100", 100), ("443", 443), ("42u8", 42), ("42_i32", 42), ("3.5f64", 3.5), ("1_024usize", 1024), ("0xBEEF", 48879)]
 EXT_LITS = {"rs": [("0x1f32", 0x1F32), ("0xfu8", 15)], "ts": [("10n", 10), ("0X1e", 30), ("1E3", 1000.0)], "py": [("7j", None)]}
 
